@@ -1,6 +1,6 @@
 """Implementation driver for C16: local-store configurations.  stdin: {"base": dir, "steps": [...]}; each step runs in
 this process: {"chdir": rel} | {"set_store": {...}} | {"keep": [path, value]} | {"load": path} | {"symlink": [target, name]}
-| {"mkdir": rel}"""
+| {"mkdir": rel} | {"repoint": [target, name]} | {"rmtree": rel}"""
 import json
 import os
 import sys
@@ -27,6 +27,16 @@ def main():
                 out.append("U")
             elif "symlink" in st:
                 os.symlink(os.path.join(payload["base"], st["symlink"][0]), os.path.join(payload["base"], st["symlink"][1]))
+                out.append("U")
+            elif "repoint" in st:
+                # a symbolic link of the test volume is made to designate another directory (a volume mounted elsewhere, a release switched)
+                name = os.path.join(payload["base"], st["repoint"][1])
+                os.remove(name)
+                os.symlink(os.path.join(payload["base"], st["repoint"][0]), name)
+                out.append("U")
+            elif "rmtree" in st:
+                import shutil
+                shutil.rmtree(os.path.join(payload["base"], st["rmtree"]))
                 out.append("U")
             elif "set_store" in st:
                 c = st["set_store"]
